@@ -627,6 +627,7 @@ pub static HIST: HistProp = HistProp {
     },
     epoll_each_step: false,
     workers: 8,
+    table: None,
 };
 
 pub fn check(ctx: &CheckCtx) -> Option<Found> {
